@@ -87,6 +87,20 @@ Theorem C04_valid_slice_iff : forall ks xs m n o,
 Proof. exact (fun ks => valid_slice_iff _ (compare_rows_po ks) row_eqb row_eqb_spec). Qed.
 Print Assumptions C04_valid_slice_iff.
 
+(* index order instead of a sort (replaceIdxSort): when all conditions have one direction and are, position by
+   position, a prefix of the index columns, the memory index storage (rows stably sorted by the index columns, NULLs
+   first) read forwards - or backwards for DESC - is a permutation of the table ordered under the ORDER BY comparator *)
+Theorem C04_index_scan_sorted : forall ks idx rows, idx_guard ks idx = true ->
+  Permutation (plan_index ks idx rows) rows /\ sorted (compare_rows ks) (plan_index ks idx rows).
+Proof. exact index_scan_sorted. Qed.
+Print Assumptions C04_index_scan_sorted.
+
+(* ... hence Limit(Offset(IndexedTableAccess)) returns rows m+1..m+n of an ordering consistent with the keys *)
+Theorem C04_index_plan_is_slice : forall ks idx rows m n, idx_guard ks idx = true ->
+  is_slice (compare_rows ks) rows m n (firstn n (skipn m (plan_index ks idx rows))).
+Proof. exact index_plan_is_slice. Qed.
+Print Assumptions C04_index_plan_is_slice.
+
 (* non-vacuity: ties, NULLs, DESC, a window that cuts through a tie class; a different tie-break is accepted,
    a wrong row is not *)
 Example C04_nonvacuous :
